@@ -500,6 +500,10 @@ pub fn check_cli(case: &CfgCase, w: usize, side: Side) -> CheckResult {
             let o = env.mr(&["analyze", "--target-groups"]);
             judge_groups(cfg, &get_groups(&o, "analyze --target-groups")?, &all_set, "analyze --target-groups (no checkpoint)")?;
             let o = env.mr(&["run", "-c", "c0"]);
+            if o.json().map(|d| d.get("failed") == Some(&Value::Bool(true))).unwrap_or(false) {
+                // the graph was accepted; a command of the run failed (nothing this property speaks about)
+                return inconclusive(format!("a task of the run failed: {}", o.brief()));
+            }
             let Some(doc) = o.json().filter(|_| o.ok()) else {
                 return viol_obs("c03.cli.rejected", "`run` failed on an acyclic configuration".into(), o.brief());
             };
@@ -508,6 +512,10 @@ pub fn check_cli(case: &CfgCase, w: usize, side: Side) -> CheckResult {
             }
             if !case.visible.is_empty() {
                 let o = env.mr(&deps_argv);
+                if o.json().map(|d| d.get("failed") == Some(&Value::Bool(true))).unwrap_or(false) {
+                    // the graph was accepted; a command of the run failed (nothing this property speaks about)
+                    return inconclusive(format!("a task of the run failed: {}", o.brief()));
+                }
                 let Some(doc) = o.json().filter(|_| o.ok()) else {
                     return viol_obs("c03.cli.rejected", "`run -t --deps` failed on an acyclic configuration".into(), o.brief());
                 };
@@ -530,6 +538,10 @@ pub fn check_cli(case: &CfgCase, w: usize, side: Side) -> CheckResult {
             let expect: BTreeSet<usize> = p.targets.iter().filter_map(|t| idx.get(t).copied()).collect();
             judge_groups(cfg, &p.groups.clone().unwrap_or_default(), &expect, "analyze --target-groups (pruned)")?;
             let o = env.mr(&["run", "-c", "c0"]);
+            if o.json().map(|d| d.get("failed") == Some(&Value::Bool(true))).unwrap_or(false) {
+                // the graph was accepted; a command of the run failed (nothing this property speaks about)
+                return inconclusive(format!("a task of the run failed: {}", o.brief()));
+            }
             let Some(doc) = o.json().filter(|_| o.ok()) else {
                 return viol_obs("c03.cli.rejected", "`run` with a checkpoint failed".into(), o.brief());
             };
@@ -540,6 +552,10 @@ pub fn check_cli(case: &CfgCase, w: usize, side: Side) -> CheckResult {
             // the checkpoint says has changed
             if !case.visible.is_empty() {
                 let o = env.mr(&deps_argv);
+                if o.json().map(|d| d.get("failed") == Some(&Value::Bool(true))).unwrap_or(false) {
+                    // the graph was accepted; a command of the run failed (nothing this property speaks about)
+                    return inconclusive(format!("a task of the run failed: {}", o.brief()));
+                }
                 let Some(doc) = o.json().filter(|_| o.ok()) else {
                     return viol_obs("c03.cli.rejected", "`run -t --deps` with a checkpoint failed on an acyclic configuration".into(), o.brief());
                 };
